@@ -141,7 +141,8 @@ class InterpolatedThresholder(MetaEstimatorMixin, BaseEstimator):
             enforce_binary_labels=False,
         )
 
-        positive_probs = 0.0 * base_predictions_vector
+        # float64 whatever the dtype of the scores: the interpolated probabilities do not fit float32/float16
+        positive_probs = 0.0 * base_predictions_vector.astype(np.float64)
         for a, interpolation in self.interpolation_dict.items():
             interpolated_predictions = interpolation.p0 * interpolation.operation0(
                 base_predictions_vector
